@@ -401,6 +401,8 @@ Definition handle_eof_without_previous_metadata (cksum : bytes) (fsize : Z) : D 
   set_step DS_SENDING_EOF_ACK.
 
 Definition handle_fd_without_previous_metadata (first : bool) (offset : Z) (data : bytes) : D unit :=
+  eof <- gp p_file_size_eof ;;
+  match eof with Some _ => ret tt | None =>     (* EOF already seen: the whole file is tracked as lost (F18 repair) *)
   let progress := offset + zlen data in
   setp (fun p => p <| p_progress := progress |>) ;;;
   when (0 <? zlen data)
@@ -412,7 +414,8 @@ Definition handle_fd_without_previous_metadata (first : bool) (offset : Z) (data
      match reqs with
      | [] => ret tt
      | _ => h <- conf ;; add_packet (PNak (set_dir TOWARDS_SENDER h) 0 progress reqs)
-     end).
+     end)
+  end.
 
 (* ---- idle FSM (dest.py:506-524) *)
 Definition idle_fsm (pkt : option pdu) : D unit :=
